@@ -10,6 +10,9 @@
 #include "../common/stdstreams.h"
 class VInst : public SDAI_Application_instance { public:
     virtual void STEPwrite( ostream & out = cout, const char * currSch = 0, int writeComments = 1 ) { (void)currSch; (void)writeComments; out << '#' << StepFileId() << ';'; } };
+union SFStore { STEPfile f; SFStore() {} ~SFStore() {} };
+// layout twin of the first members of STEPfile (vptr, InstMgr & _instances, Registry & _reg)
+struct STEPfileHead { void *vptr; InstMgr *inst; Registry *reg; };
 extern "C" {
 __attribute__((noinline)) int w_state_of_letter(int c) {
     STEPfile *sf = (STEPfile *)calloc(1, sizeof(STEPfile));
@@ -18,9 +21,11 @@ __attribute__((noinline)) int w_state_of_letter(int c) {
 }
 // n instances (ids 1..n) with the given states; returns the text written by WriteWorkingData
 __attribute__((noinline)) int w_write_working(int n, const int *states, char *out, int cap) {
-    STEPfile *sf = (STEPfile *)calloc(1, sizeof(STEPfile));
+    static SFStore sfs;   // zero-initialised static storage of the right TYPE; STEPfile's constructor is not run
+    STEPfile *sf = &sfs.f;
     InstMgr *im = new InstMgr(0);
-    { InstMgr **slot = (InstMgr **)((char *)sf + sizeof(void *)); *slot = im; }   // bind the reference member _instances (first member after the vptr)
+    // (default 1024-slot manager array)
+    *(InstMgr **)((char *)sf + sizeof(void *)) = im;   // bind the reference member _instances (first member after the vptr)
     for(int i = 0; i < n && i < 3; i++) { VInst *v = new VInst(); v->StepFileId(i + 1); im->Append(v, (stateEnum)states[i]); }
     std::ostringstream o;
     sf->WriteWorkingData(o, 0);
